@@ -37,6 +37,19 @@ class FA:
             c = _module_constant(self.fi.module, name)
             if c is not None:
                 return c
+            # a named constant imported from another module of the package
+            m_, nm_ = self.fi.module, name
+            for _ in range(4):
+                b_ = m_.bindings.get(nm_)
+                if not b_ or b_[0] != "from":
+                    break
+                tm_ = self.prog.modules.get(b_[1])
+                if tm_ is None:
+                    break
+                m_, nm_ = tm_, b_[2]
+                c = _module_constant(m_, nm_)
+                if c is not None:
+                    return c
             return f"{self.fi.module.name}.{name}"
         return None
 
